@@ -78,9 +78,10 @@ func c16Jobs(tier string) []string {
 // ---- VectorisedView system ----
 
 type c16Obj struct {
-	vv    buffer.VectorisedView
-	ref   [][]byte // reference: list of chunks (plain byte strings)
-	alive bool
+	vv     buffer.VectorisedView
+	ref    [][]byte // reference: list of chunks (plain byte strings)
+	alive  bool
+	capped bool // a CapLength within the size has been applied: the last chunk must not be re-extendable
 }
 
 type c16VV struct {
@@ -190,6 +191,9 @@ func (s *c16VV) Apply(i int) *engine.Violation {
 			x.ref = x.ref[1:]
 		}
 	case 'C':
+		if o.arg > 0 && o.arg <= refSize(x.ref) {
+			x.capped = true
+		}
 		x.vv.CapLength(o.arg)
 		l := o.arg
 		if l < 0 {
@@ -224,7 +228,7 @@ func (s *c16VV) Apply(i int) *engine.Violation {
 		case 2:
 			buf = make([]buffer.View, 8)
 		}
-		s.objs[1] = c16Obj{vv: x.vv.Clone(buf), alive: true}
+		s.objs[1] = c16Obj{vv: x.vv.Clone(buf), alive: true, capped: x.capped}
 		for _, ch := range x.ref {
 			s.objs[1].ref = append(s.objs[1].ref, ch)
 		}
@@ -257,6 +261,11 @@ func (s *c16VV) Apply(i int) *engine.Violation {
 		}
 		if len(y.vv.Views()) == 0 && y.vv.First() != nil {
 			return bad("First() non-nil on an empty vectorised view")
+		}
+		if vs := y.vv.Views(); y.capped && len(vs) > 0 {
+			if last := vs[len(vs)-1]; cap(last) != len(last) {
+				return bad("after CapLength the last chunk can be re-extended: it exposes %x beyond the cap", []byte(last[:cap(last)][len(last):]))
+			}
 		}
 	}
 	return nil
